@@ -105,6 +105,13 @@ Candidates ==
     \cup NoRes("Export", [fmt |-> "ply-le"]) \cup NoRes("Export", [fmt |-> "obj"])
     \cup NoRes("Export", [fmt |-> "glb"]) \cup NoRes("Export", [fmt |-> "stl"])
     \cup NoRes("Scan", Z)
+    \* primitives entering the pool (they share package-level tables): welded cubes incl. a mirrored one, quads cube, sphere
+    \cup {[op |-> "Prim", dst |-> d, src |-> <<>>, args |-> [gen |-> c[1], p |-> c[2]]] :
+            d \in NewSlots, c \in {<<3, <<2, 2, 2, 0>>>>, <<3, <<0 - 4, 6, 8, 1>>>>, <<4, <<2, 4, 6, 0>>>>, <<1, <<2, 2, 3, 0>>>>}}
+    \* windows of one longer array handed to two meshes
+    \cup Unary("SetAttrWindow", [ar |-> 1, id |-> 13, n |-> 3, data |-> <<<<Q>>, <<2 * Q>>, <<3 * Q>>, <<4 * Q>>, <<5 * Q>>, <<6 * Q>>>>])
+    \cup Unary("SetAttrWindow", [ar |-> 1, id |-> 13, n |-> 6, data |-> <<<<Q>>, <<2 * Q>>, <<3 * Q>>, <<4 * Q>>, <<5 * Q>>, <<6 * Q>>>>])
+    \cup Unary("SetAttrWindow", [ar |-> 1, id |-> 13, n |-> 5, data |-> <<<<Q>>, <<2 * Q>>, <<3 * Q>>, <<4 * Q>>, <<5 * Q>>, <<6 * Q>>>>])
     \* operations without a reference value in the model (slice by plane, scale along normal, 2D normalise/scale,
     \* implicit-weld normals, colour space, Laplacian along an axis, clear / replace attribute maps, transformer
     \* chains): their result is dropped by the generator, but frame and well-formedness are judged
@@ -120,6 +127,7 @@ Do(st) ==
            \* (target attribute zeroed); the trace judge re-synchronises on the observed value anyway
            r == IF st.op \in AttrOps /\ IsMesh(e)
                 THEN SetAttr(e, 3, AttrTarget(st), ZeroData(3, AttrLen(e)))
+                ELSE IF st.op = "Prim" THEN BaseTris      \* placeholder: the real primitive is only known to the judge
                 ELSE e
        IN
          /\ IF st.dst = 0 THEN pool' = pool
